@@ -51,7 +51,8 @@ THEOREMS = {
     "C11": _gt("tldTypeEnum_eq") + [("Eav.Props.C11", "Eav.Props.C11." + n) for n in
             ("table_eq_gen", "names_sorted", "names_distinct", "names_lower_alabel", "lengths_and_types", "same_rows", "ascii_rows_equal",
              "types_equal", "domains_txt_eq")] + [("Eav.Props.C07", "Eav.Props.C07.isTld_eq_csv")],
-    "C12": _gt("errEnum_eq", "specials_eq"),
+    "C12": _gt("errEnum_eq", "specials_eq") + [("Eav.Props.C12", "Eav.Props.C12." + n) for n in
+            ("unquoted_same", "isLocal_mono", "local_incl", "hostPart_shared", "domain_verdict_shared", "incl_5321_822")],
     "C13": _gt("init_values", "setup_eq", "init_sets_all") + [("Eav.Props.C13", "Eav.Props.C13." + n) for n in
             ("inv_init", "isEmail_outcome", "errstr_latest", "failed_setup_keeps_mode", "inv_setup", "free_releases", "reinit_ok",
              "inv_settings", "run_inv", "lifecycle_releases")],
